@@ -3,6 +3,8 @@ package all
 
 import (
 	_ "verif/props/c02"
+	_ "verif/props/c10"
+	_ "verif/props/c11"
 	_ "verif/props/c13"
 	_ "verif/props/c14"
 	_ "verif/props/c15"
